@@ -1144,6 +1144,9 @@ def simplify_call(term, c, t):
     # std conversions applied to a value whose variant is already known on this path (after `.filter(..)`, a match arm
     # that built Some/None, ...): compute the result instead of forking on it later
     last = path.split('::')[-1]
+    if last == 'from_residual' and (c.get('self_ty') or '').startswith('std::option::Option<'):
+        # `?` on an Option inside a function returning Option: the early exit is None
+        return ('agg', 'std::option::Option::None', FrozenDict(()), 0)
     if last in ('eq', 'ne') and len(args) == 2 and c.get('trait') == 'std::cmp::PartialEq':
         # `Variant == Variant` of a field-less enum with derived PartialEq, both sides known on this path
         x, y = strip_transparent(args[0]), strip_transparent(args[1])
